@@ -7,10 +7,11 @@ NONASCII = ["é", "€", "😀", "ß", "ж"]
 
 class Builder:
     """one file's text, built line by line; remembers where planted things start"""
-    def __init__(self, rng, arch):
+    def __init__(self, rng, arch, nolabels=False):
         self.rng, self.arch = rng, arch
         self.text = ""
         self.n = 0
+        self.nolabels = nolabels          # a file that is included twice cannot define labels
     def eol(self):
         return "\r\n" if self.rng.random() < 0.12 else "\n"
     def filler(self):
@@ -31,8 +32,15 @@ class Builder:
         elif k < 0.8:
             # a string continued over a line break
             self.text += ' @db "a' + r.choice(["", r.choice(NONASCII)]) + '\\\n' + r.choice(["", "  "]) + 'b"' + self.eol()
-        elif k < 0.9:
-            self.text += "fl%d_%d:" % (id(self) % 9973, self.n) + r.choice(["", " @db 0"]) + self.eol()
+        elif k < 0.87:
+            if self.nolabels:
+                self.text += " @db 0" + self.eol()
+            else:
+                self.text += "fl%d_%d:" % (id(self) % 9973, self.n) + r.choice(["", " @db 0"]) + self.eol()
+        elif k < 0.94:
+            # valid references to a constant that the root file defines at its very end: deferred links that succeed
+            self.text += r.choice(["@dw okfwd", " @db < okfwd, 1", {"z80": " jp okfwd", "sm83": " jp okfwd", "6502": " jmp okfwd"}[self.arch],
+                                   "@assert okfwd", "@ds 2, > okfwd"]) + self.eol()
         else:
             self.text += {"z80": " ld a, 1", "sm83": " ld a, 1", "6502": " lda #1"}[self.arch] + self.eol()
     def fillers(self, lo, hi):
@@ -145,33 +153,77 @@ def plant(rng, arch, b):
     p = stmt(head, tok)
     return "instr_fwd", "L", [p], trailer
 
+def plant_twice(rng, arch, b):
+    """a statement that is valid while pass2 = 0 and faulty when pass2 = 1"""
+    ind = rng.choice(["", " ", "   ", "\t"])
+    sfx = rng.choice(["", " ", " ; c", "\t; " + rng.choice(NONASCII)])
+    kind = rng.choice(["range2", "assert2", "die2", "instr_range2"])
+    if kind == "range2":
+        d, expr = rng.choice([("@db ", "pass2 + 255"), ("@dw ", "pass2 * 70000"), ("@db 1, ", "255 + pass2")])
+        b.text += ind + d
+        p = b.mark()
+        b.text += expr + sfx + "\n"
+        return kind, "A", [p], []
+    if kind == "instr_range2":
+        head = {"z80": "ld a, ", "sm83": "ld a, ", "6502": "lda #"}[arch]
+        b.text += ind + " " + head
+        p = b.mark()
+        b.text += "pass2 + 255" + sfx + "\n"
+        return kind, "A", [p], []
+    if kind == "assert2":
+        b.text += ind
+        p0 = b.mark()
+        b.text += "@assert "
+        p1 = b.mark()
+        b.text += "1 - pass2" + rng.choice(["", ', "msg"']) + sfx + "\n"
+        return kind, "A", [p0, p1], []
+    b.text += ind + "@if pass2\n" + ind
+    p0 = b.mark()
+    b.text += "@die "
+    p1 = b.mark()
+    b.text += '"stop"' + sfx + "\n@endif\n"
+    return kind, "A", [p0, p1], []
+
 def gen_case(rng):
     arch = rng.choice(asmk.ARCHES)
     depth = rng.choice([0, 0, 1, 1, 2])                  # how deep the faulty file is included
     paths = ["/w/main.asm", "/w/a.inc", "/w/sub/b.inc"][:depth + 1]
     names = [None, "a.inc", "sub/b.inc"]
-    builders = [Builder(rng, arch) for _ in paths]
+    # "twice": the root file includes its include file two times, and the fault only arises the second time round (the
+    # chain of including locations must name the second @include, not the first)
+    twice = depth >= 1 and rng.random() < 0.2
+    builders = [Builder(rng, arch, nolabels=(twice and i > 0)) for i, _ in enumerate(paths)]
     chain = []                                          # innermost first: (path of includer, line, [cols])
     # definitions used by the duplicate faults come first in the root file
     builders[0].fillers(0, 3)
     builders[0].text += "@defn dupc, 1\n"
     builders[0].text += "dupl:\n"
+    if twice:
+        builders[0].text += "@defl pass2, 0\n"
     incl = []
     for i, b in enumerate(builders):
         b.fillers(1, 7)
         if i < depth:
-            ind = rng.choice(["", "  ", "\t"])
-            b.text += ind
-            p0 = b.mark()
-            b.text += "@include "
-            p1 = b.mark()
-            b.text += '"%s"' % names[i + 1] + rng.choice(["", " ; inc"]) + "\n"
-            incl.append((paths[i], p0[0], [p0[1], p1[1]]))
-    kind, phase, accept, trailer = plant(rng, arch, builders[depth])
+            for rnd in ((0, 1) if (twice and i == 0) else (0,)):
+                if rnd == 1:
+                    b.fillers(0, 4)
+                    b.text += "@redefl pass2, 1\n"
+                    b.fillers(0, 3)
+                ind = rng.choice(["", "  ", "\t"])
+                b.text += ind
+                p0 = b.mark()
+                b.text += "@include "
+                p1 = b.mark()
+                b.text += '"%s"' % names[i + 1] + rng.choice(["", " ; inc"]) + "\n"
+                if rnd == 1:
+                    incl.pop()
+                incl.append((paths[i], p0[0], [p0[1], p1[1]]))
+    kind, phase, accept, trailer = (plant_twice if twice else plant)(rng, arch, builders[depth])
     for b in builders:
         b.fillers(0, 5)
     for t in trailer:
         builders[0].text += t + "\n"
+    builders[0].text += "@defn okfwd, $1234\n"
     files = {p: b.text for p, b in zip(paths, builders)}
     return {"arch": arch, "files": files, "kind": kind, "phase": phase, "accept": accept, "target": paths[depth],
             "chain": list(reversed(incl)), "depth": depth}
